@@ -260,12 +260,21 @@ pub struct SigCase {
     pub mutation: Mutation,
     /// 0 will_execute_raw, 1 will_execute (pair with a dummy verifier)
     pub api: u8,
+    /// the replacement pointer is the target's own address (one piece of code presented under
+    /// two signatures): the accept/refuse decision is about the signatures all the same
+    #[serde(default)]
+    pub same_address: bool,
 }
 
 #[derive(Serialize, Deserialize, Clone, Debug, Hash, PartialEq, Eq)]
 pub struct BoolCase {
     pub sig: FnSig,
     pub value: bool,
+    /// 0: typed target; 1: `when_called_unchecked` (no recorded signature); 2: `when_called` with a
+    /// pointer that carries no signature.  (3, a string that is not a function type at all, exists
+    /// for experiments only: what to do with such a string is nobody's claim, so it is not generated)
+    #[serde(default)]
+    pub untyped: u8,
 }
 
 #[derive(Serialize, Deserialize, Clone, Debug, Default)]
@@ -310,7 +319,7 @@ pub fn execute_sig(c: &SigCase) -> SigObs {
     ip::plan_reset();
     ip::log_clear();
     let taddr = sig_target as fn() -> u64 as usize;
-    let raddr = sig_replacement as fn() -> u64 as usize;
+    let raddr = if c.same_address { taddr } else { sig_replacement as fn() -> u64 as usize };
     let before = crate::mem::read_direct(taddr, 32);
     let calls0 = ip::MMAP_CALLS.load(SeqCst) + ip::MPROTECT_CALLS.load(SeqCst) as u64;
     let _ = calls0;
@@ -346,7 +355,8 @@ pub fn execute_sig(c: &SigCase) -> SigObs {
             // only call when the entry leads to the replacement
             let m = crate::mem::ProcMem::new();
             let out = vcommon::decoders::x86_follow(&m, taddr as u64, &[raddr as u64], 6);
-            if out.end == (vcommon::decoders::X86End::Arrived { at: raddr as u64 }) {
+            // (a function redirected to itself is never called: it would not return)
+            if raddr != taddr && out.end == (vcommon::decoders::X86End::Arrived { at: raddr as u64 }) {
                 o.call_value = Some(sig_target());
             }
             crate::worker::phase("drop");
@@ -367,11 +377,22 @@ pub fn execute_bool(c: &BoolCase) -> SigObs {
     let taddr = sig_bool_target as fn() -> bool as usize;
     let before = crate::mem::read_direct(taddr, 32);
     let v = c.value;
+    let untyped = c.untyped % 4;
+    // strings that are not a function signature (whatever they end in)
+    let junk: &'static str = ["bool", "-> bool", " ", "fn", "bool -> bool", "fn() ->", "() -> bool"][(c.sig.params.len() + c.value as usize) % 7];
+    if untyped != 0 {
+        o.sig_a = if untyped == 3 { format!("<not a signature: {junk:?}>") } else { "<no recorded signature>".into() };
+    }
     crate::worker::phase("install");
     let r = std::panic::catch_unwind(std::panic::AssertUnwindSafe(|| {
         ip::sut(|| unsafe {
             let mut inj = InjectorPP::new();
-            inj.when_called(FuncPtr::new(taddr as *const (), sa)).will_return_boolean(v);
+            match untyped {
+                1 => inj.when_called_unchecked(FuncPtr::new(taddr as *const (), "")).will_return_boolean(v),
+                2 => inj.when_called(FuncPtr::new(taddr as *const (), "")).will_return_boolean(v),
+                3 => inj.when_called(FuncPtr::new(taddr as *const (), junk)).will_return_boolean(v),
+                _ => inj.when_called(FuncPtr::new(taddr as *const (), sa)).will_return_boolean(v),
+            }
             inj
         })
     }));
@@ -418,8 +439,12 @@ pub fn sig_case_strategy() -> impl Strategy<Value = SigCase> {
     (sig_strategy(), mutation_strategy(), 0u8..2).prop_map(|(sig, mutation, api)| {
         // mutations that cannot apply to this structure degrade to the identical pair
         let mutation = if mutate(&sig, &mutation).is_none() { Mutation::None } else { mutation };
-        SigCase { sig, mutation, api }
+        SigCase { sig, mutation, api, same_address: false }
     })
+    .prop_flat_map(|c| (Just(c), prop::bool::weighted(0.12)).prop_map(|(mut c, same)| {
+        c.same_address = same && !matches!(c.mutation, Mutation::NullReplacement | Mutation::NullTarget);
+        c
+    }))
 }
 
 /// Return types biased to ones whose rendering merely *ends in* `-> bool`, and look-alikes.
@@ -444,7 +469,11 @@ pub fn bool_case_strategy() -> impl Strategy<Value = BoolCase> {
     ];
     // parameters may themselves contain `-> bool`
     let param = prop_oneof![3 => ty_strategy(), 1 => Just(fnbool(vec![], false, 0)), 1 => Just(Ty::DynFn(Box::new(b())))];
-    (prop::collection::vec(param, 0..=5), ret, any::<bool>(), prop_oneof![3 => Just(0u8), 1 => Just(1u8), 1 => Just(2u8)], any::<bool>()).prop_map(|(params, ret, unsafe_, abi, value)| BoolCase { sig: FnSig { unsafe_: unsafe_ || abi != 0, abi, params, ret }, value })
+    (prop::collection::vec(param, 0..=5), ret, any::<bool>(), prop_oneof![3 => Just(0u8), 1 => Just(1u8), 1 => Just(2u8)], any::<bool>()).prop_map(|(params, ret, unsafe_, abi, value)| BoolCase { sig: FnSig { unsafe_: unsafe_ || abi != 0, abi, params, ret }, value, untyped: 0 })
+        .prop_flat_map(|c| (Just(c), prop_oneof![12 => Just(0u8), 1 => Just(1u8), 1 => Just(2u8)]).prop_map(|(mut c, u)| {
+            c.untyped = u;
+            c
+        }))
 }
 
 // ------------------------------------------------------------------------------------------------
@@ -488,12 +517,17 @@ pub fn judge_sig(rec: &mut Recorder, c: &SigCase, ex: Exec, _hello: &Value) -> R
             if let Some(p) = &o.panic {
                 return rec.fail(&sig("identical-pair-refused"), format!("identically written pair {:?} was refused: {p}", o.sig_a));
             }
-            if o.call_value != Some(0x5161) {
+            if c.same_address {
+                rec.class("replacement-at-the-target's-own-address/identical");
+            } else if o.call_value != Some(0x5161) {
                 return rec.fail(&sig("accepted-but-not-redirected"), format!("accepted pair {:?}: target returned {:?}, replacement returns 0x5161", o.sig_a, o.call_value));
             }
             rec.nontrivial(&("identical", &o.sig_a, c.api));
         }
         _ => {
+            if c.same_address {
+                rec.class("replacement-at-the-target's-own-address/different-signature");
+            }
             let want = match c.mutation {
                 Mutation::NullReplacement | Mutation::NullTarget => "null",
                 _ => "mismatch",
@@ -521,8 +555,11 @@ pub fn judge_sig(rec: &mut Recorder, c: &SigCase, ex: Exec, _hello: &Value) -> R
 
 pub fn judge_bool(rec: &mut Recorder, c: &BoolCase, ex: Exec, _hello: &Value) -> Result<(), String> {
     let Some(o) = obs_of(rec, ex, c)? else { return Ok(()) };
-    let is_bool = c.sig.ret == Ty::Prim(0);
+    let is_bool = c.sig.ret == Ty::Prim(0) && c.untyped % 4 == 0;
     let ends_like = o.sig_a.trim_end().ends_with("-> bool");
+    if c.untyped % 4 != 0 {
+        rec.class(["", "target-without-signature/unchecked-builder", "target-without-signature/checked-builder", "signature-string-is-not-a-function-type"][(c.untyped % 4) as usize]);
+    }
     rec.eval(|| json!({"sig": o.sig_a, "value": c.value, "top_level_return_is_bool": is_bool, "outcome": o.panic.clone().unwrap_or_else(|| "accepted".into())}));
     rec.class(match (is_bool, ends_like) {
         (true, _) => "returns-bool",
@@ -543,7 +580,7 @@ pub fn judge_bool(rec: &mut Recorder, c: &BoolCase, ex: Exec, _hello: &Value) ->
     } else {
         match &o.panic {
             None => {
-                return rec.fail(&sig(if ends_like { "non-bool-accepted/ends-with-arrow-bool" } else { "non-bool-accepted" }), format!("will_return_boolean accepted {:?}, whose return type is {:?}, not bool", o.sig_a, super::sigs::render_ty(&c.sig.ret)));
+                return rec.fail(&sig(if ends_like { "non-bool-accepted/ends-with-arrow-bool" } else { "non-bool-accepted" }), format!("will_return_boolean accepted {:?}, whose return type is {}, not bool", o.sig_a, if c.untyped % 4 != 0 { "unknown (no function signature recorded)".to_string() } else { format!("{:?}", super::sigs::render_ty(&c.sig.ret)) }));
             }
             Some(_) => {}
         }
